@@ -1199,10 +1199,24 @@ func mgGenProg(r *rng, feat map[string]int) (*mgProg, []mgSig) {
 
 // ---------- decoding real bytecode into the target instruction type ----------
 
-func c14DecodeTarget(script []byte) (terms []string, at map[int]int, err error) {
+// c14Policy counts, over the jumps and calls of one script, how the widths the real emitter chose compare with
+// the rule "short iff the offset in the all-long layout fits a signed byte" applied without the place holders
+// (INITSLOT 0 0, JMPL +5) that the real layout still contains at that point.
+type c14Policy struct{ Jumps, Agree, KeptLong, Impossible int }
+
+func c14IsShortJump(op opcode.Opcode) bool {
+	switch op {
+	case opcode.JMP, opcode.JMPIF, opcode.JMPIFNOT, opcode.JMPEQ, opcode.JMPNE, opcode.JMPGT, opcode.JMPGE,
+		opcode.JMPLT, opcode.JMPLE, opcode.CALL:
+		return true
+	}
+	return false
+}
+
+func c14DecodeTarget(script []byte) (terms []string, at map[int]int, long []bool, pol c14Policy, err error) {
 	ins, at, err := c14Decode(script)
 	if err != nil {
-		return nil, nil, err
+		return nil, nil, nil, pol, err
 	}
 	target := func(in c14Ins) (int, error) {
 		var rel int
@@ -1237,8 +1251,17 @@ func c14DecodeTarget(script []byte) (terms []string, at map[int]int, err error) 
 		opcode.RET: "IRet", opcode.DROP: "IDrop", opcode.SWAP: "ISwap", opcode.REVERSE3: "IReverse3",
 		opcode.REVERSE4: "IReverse4", opcode.REVERSEN: "IReverseN", opcode.NOP: "INop",
 		opcode.DUP: "IDup", opcode.EQUAL: "IEqual"}
+	var jumpAt, jumpTo []int
+	offL := []int{0} // offsets in the layout with every jump and call in the long form
 	for _, in := range ins {
 		op := in.op
+		if c14IsShortJump(op) {
+			offL = append(offL, offL[len(offL)-1]+5)
+		} else {
+			offL = append(offL, offL[len(offL)-1]+1+len(in.param))
+		}
+		// width of a jump or call operand as the emitter left it (true = long form); true for everything else
+		long = append(long, len(in.param) != 1 || !c14IsShortJump(op))
 		switch {
 		case simple[op] != "":
 			terms = append(terms, simple[op])
@@ -1270,8 +1293,10 @@ func c14DecodeTarget(script []byte) (terms []string, at map[int]int, err error) 
 			op == opcode.JMPIFNOT || op == opcode.JMPIFNOTL || op == opcode.CALL || op == opcode.CALLL || cmpOf[op] != "":
 			t, err := target(in)
 			if err != nil {
-				return nil, nil, err
+				return nil, nil, nil, pol, err
 			}
+			jumpAt = append(jumpAt, len(terms))
+			jumpTo = append(jumpTo, t)
 			switch {
 			case op == opcode.JMP || op == opcode.JMPL:
 				terms = append(terms, fmt.Sprintf("Jmp %d", t))
@@ -1285,10 +1310,24 @@ func c14DecodeTarget(script []byte) (terms []string, at map[int]int, err error) 
 				terms = append(terms, fmt.Sprintf("JmpCmp %s %d", cmpOf[op], t))
 			}
 		default:
-			return nil, nil, fmt.Errorf("offset %d: %s is outside the modelled subset", in.off, op)
+			return nil, nil, nil, pol, fmt.Errorf("offset %d: %s is outside the modelled subset", in.off, op)
 		}
 	}
-	return terms, at, nil
+	// the emitter's rule applied to the place-holder-free long layout (Coq: Assemble.shorten) against the real widths
+	for n, k := range jumpAt {
+		rel := offL[jumpTo[n]] - offL[k]
+		short := rel >= -128 && rel <= 127
+		pol.Jumps++
+		switch {
+		case short == !long[k]:
+			pol.Agree++
+		case short:
+			pol.KeptLong++
+		default:
+			pol.Impossible++
+		}
+	}
+	return terms, at, long, pol, nil
 }
 
 // ---------- running fragment programs ----------
@@ -1380,7 +1419,7 @@ func c14FragRun(co *caseOut, dir string, ins []c14FragInput) error {
 			continue
 		}
 		c14Meta(co, u, cc)
-		terms, at, err := c14DecodeTarget(cc.script)
+		terms, at, long, pol, err := c14DecodeTarget(cc.script)
 		type implT struct {
 			VM      []string `json:"vm"`
 			Go      []string `json:"go"`
@@ -1430,10 +1469,27 @@ func c14FragRun(co *caseOut, dir string, ins []c14FragInput) error {
 			}
 			runs = append(runs, fmt.Sprintf("(%d, [%s], %s, %s)", op.F, strings.Join(as, "; "), c14Obs(vm, f.Ret), c14Obs(g, f.Ret)))
 		}
-		term := fmt.Sprintf("CFrag\n   %s\n   [%s]\n   [%s]\n   [%s]", in.Coq, strings.Join(terms, "; "), strings.Join(ents, "; "), strings.Join(runs, ";\n    "))
+		// the script bytes themselves and the jump widths read off them: the byte-level comparison with the assembler
+		bytesT := make([]string, len(cc.script))
+		for k, b := range cc.script {
+			bytesT[k] = fmt.Sprint(b)
+		}
+		longT := make([]string, len(long))
+		for k, l := range long {
+			longT[k] = fmt.Sprint(l)
+		}
+		term := fmt.Sprintf("CFrag\n   %s\n   [%s]\n   [%s]\n   [%s]\n   [%s]\n   [%s]", in.Coq, strings.Join(terms, "; "), strings.Join(ents, "; "),
+			strings.Join(runs, ";\n    "), strings.Join(bytesT, "; "), strings.Join(longT, "; "))
 		tag := in.Tag
 		if skipped > 0 {
 			c14AddExtra(co, "x_frag_long_runs_not_evaluated_in_coq", skipped)
+		}
+		c14AddExtra(co, "x_frag_script_bytes_compared", len(cc.script))
+		c14AddExtra(co, "x_frag_jumps", pol.Jumps)
+		c14AddExtra(co, "x_frag_jumps_width_as_plain_rule", pol.Agree)
+		c14AddExtra(co, "x_frag_jumps_kept_long_by_placeholders", pol.KeptLong)
+		if pol.Impossible > 0 {
+			c14AddExtra(co, "x_frag_jumps_short_against_rule", pol.Impossible)
 		}
 		if !impl.Decoded {
 			tag = "outside-subset"
